@@ -264,8 +264,16 @@ class FormulaManager(object):
             raise PysmtValueError("The exponent of POW must be a constant.", exponent)
 
         if base.is_constant():
-            val = cast(Union[int, fractions.Fraction], base.constant_value()) ** cast(Union[int, fractions.Fraction], exponent.constant_value())
-            return self.Real(val)
+            if base.is_algebraic_constant() or exponent.is_algebraic_constant():
+                val = cast(Union[int, fractions.Fraction], base.constant_value()) ** cast(Union[int, fractions.Fraction], exponent.constant_value())
+                return self.Real(val)
+            # Fold exactly: only integer exponents (Python would answer
+            # with a float for int ** -n and for fractional exponents),
+            # and never 0 ** negative.
+            b = Fraction(base.constant_value())
+            e = Fraction(exponent.constant_value())
+            if e.denominator == 1 and not (b == 0 and e < 0):
+                return self.Real(b ** int(e))
         return self.create_node(node_type=op.POW, args=(base, exponent))
 
     def Div(self, left: FNode, right: FNode) -> FNode:
